@@ -15,7 +15,9 @@
 (*   Decode(r,s,c,t)    tamper class t applied to the bytes of c, then     *)
 (*                      decode_* at r with the handle r has for s          *)
 (* The configuration (level, sign/encrypt, origin authentication, key      *)
-(* length, direction) is chosen in Init.  The registration space is finite *)
+(* length, direction, protection of the endpoint level NOT under test:     *)
+(* same kind / none / the other kind - the latter two give a writer two    *)
+(* key materials with two key ids) is chosen in Init.  The registration space is finite *)
 (* (every call at most once per pair), so TLC enumerates all registration  *)
 (* orders, all missing registrations, all stray token deliveries, all      *)
 (* receiver lists and every tamper class; `trail` records the calls for    *)
@@ -25,15 +27,18 @@ EXTENDS CryptoAbs, TLC, Json
 
 CONSTANTS Senders, Receivers,   \* disjoint subsets of P
           Levels, Kinds, OAs, K256s, Dirs,
+          Others,               \* protection of the endpoint level not under test: subset of {"same", "none", "diff"}
           Astray,               \* TRUE: tokens may be delivered to the wrong plugin
-          GenK                  \* print every GenK-th explored edge as a replay (0: none)
+          LooseKid,             \* FALSE: the lookup of the code.  TRUE: deliberately wrong lookup (negative control, MC_CryptoKeys_neg.cfg)
+          GenK,                 \* print every GenK-th explored edge as a replay (0: none)
+          GenC                  \* ... but every GenC-th edge that alters bytes an authorised receiver would have decoded
 
 VARIABLES cfg, local, mpart, mep, dk, ct, trail
 vars == <<cfg, local, mpart, mep, dk, ct, trail>>
 View == <<cfg, local, mpart, mep, dk, ct>>
 
 Pairs == (Senders \X Receivers) \cup (Receivers \X Senders)
-Cfgs == {c \in [lvl : Levels, kind : Kinds, oa : OAs, k256 : K256s, dir : Dirs] :
+Cfgs == {c \in [lvl : Levels, kind : Kinds, oa : OAs, k256 : K256s, dir : Dirs, other : Others] :
             /\ (c.lvl = "payload" => ~c.oa /\ c.dir = "w2r")    \* no receiver-specific MACs on payloads; only writers send payloads
             /\ (c.lvl = "msg" => c.dir = "w2r")}                 \* direction is immaterial for participants
 
@@ -94,11 +99,15 @@ Encode(p, to, frame, al) ==
 Held(r, s) == IF <<r, s>> \in Pairs THEN dk[<<r, s>>] ELSE 0
 EpInfo(r, s) == <<r, s>> \in mep
 
+Impl(r, s, c, t) == ImplDecode(LooseKid, cfg, Senders, ct[c], r, s, Held(r, s), EpInfo(r, s), t)
+Applicable(r, s, c) == Tampers(cfg, Senders, local, ct[c], r, s, Held(r, s))
+
 Decode(r, s, c, t) ==
   /\ r \in P /\ s \in Senders /\ r # s /\ r # ct[c].p
-  /\ t \in Tampers(cfg, ct[c], Held(r, s))
+  /\ t \in Applicable(r, s, c)
   /\ Log([a |-> "Decode", r |-> r, s |-> s, c |-> c, t |-> t,
-          expect |-> ImplDecode(cfg, ct[c], s, Held(r, s), EpInfo(r, s), t)])
+          expect |-> Impl(r, s, c, t),
+          base |-> Impl(r, s, c, "none")])       \* what the same call yields on the unaltered bytes
   /\ UNCHANGED <<cfg, local, mpart, mep, dk, ct>>
 
 Next ==
@@ -119,8 +128,8 @@ Spec == Init /\ [][Next]_vars
 Cases == {x \in P \X Senders \X (DOMAIN ct) \X AllT :
             /\ x[1] # x[2]
             /\ x[1] # ct[x[3]].p
-            /\ x[4] \in Tampers(cfg, ct[x[3]], Held(x[1], x[2]))}
-Out(x) == ImplDecode(cfg, ct[x[3]], x[2], Held(x[1], x[2]), EpInfo(x[1], x[2]), x[4])
+            /\ x[4] \in Applicable(x[1], x[2], x[3])}
+Out(x) == Impl(x[1], x[2], x[3], x[4])
 Auth(x) == Authorized(cfg, ct[x[3]], x[2], Held(x[1], x[2]), x[4])
 
 Inv_TamperedNeverDecodes   == \A x \in Cases : x[4] \in MustReject => Out(x) = "nodata"
@@ -130,10 +139,18 @@ Inv_NoMacForMeNoData       == \A x \in Cases : ~MacForMe(cfg, ct[x[3]], Held(x[1
 Inv_AuthorisedDecodes      == \A x \in Cases : Auth(x) /\ ~DevS10(cfg, ct[x[3]]) => Out(x) = "plain"
 \* the deviation really is one (this invariant documents S10; it fails when the deviation is removed from ImplDecode)
 Inv_S10IsADeviation        == \A x \in Cases : Auth(x) /\ DevS10(cfg, ct[x[3]]) => Out(x) = "nodata"
+\* strengthening round: a header key id overwritten with the id of ANOTHER existing key (sibling level of the same
+\* sender, other entity level, receiver-specific key, another sender, the receiver itself, zero) never yields data
+Inv_KeyIdOfAnotherKeyNoData == \A x \in Cases : x[4] \in KidT => Out(x) = "nodata"
 \* vacuity guards are in MC_CryptoKeys_*.cfg as "never" properties checked by hand, see NOTES
 
-\* every edge on which the model says "plain" is replayed, the others are sampled 1 : GenK
-GenEdge == (GenK > 0 /\ trail'[Len(trail')].a = "Decode" /\
-              (trail'[Len(trail')].expect = "plain" \/ RandomElement(1..GenK) = 1)) =>
+\* every edge on which the model says "plain" is replayed; alterations of bytes that the receiver would
+\* otherwise have decoded (the alteration is the ONLY reason for "no data") are sampled 1 : GenC,
+\* the others 1 : GenK
+GenEdge == LET a == trail'[Len(trail')] IN
+           (GenK > 0 /\ a.a = "Decode" /\
+              (\/ a.expect = "plain"
+               \/ (a.base = "plain" /\ RandomElement(1..GenC) = 1)
+               \/ RandomElement(1..GenK) = 1)) =>
              PrintT("REPLAY " \o ToJson([cfg |-> cfg, senders |-> Senders, acts |-> trail']))
 =============================================================================
